@@ -233,10 +233,14 @@ theorem model_meets_spec (origin : Bytes) (o : PURL) (allow : List (Bytes × PUR
       rw [List.any_eq_true]; exact ⟨a, ha, by simp [he]⟩
     simp [spec, this]
   | echo =>
-    obtain ⟨h1, h2, _, a, ha, hok, hm⟩ := echo_sound origin o allow hr
+    obtain ⟨h1, h2, hs, a, ha, hok, hm⟩ := echo_sound origin o allow hr
     have hne : origin.isEmpty = false := by cases origin <;> simp_all
+    have hsne : o.scheme.isEmpty = false := by
+      cases hsc : o.scheme with
+      | nil => exact absurd hsc hs
+      | cons _ _ => rfl
     unfold spec
-    simp only [hne, h2, Bool.not_true, Bool.or_self, Bool.false_eq_true, if_false]
+    simp only [hne, h2, hsne, Bool.not_true, Bool.or_self, Bool.false_and, Bool.false_eq_true, if_false]
     by_cases hlit : allow.any (fun a => a.2.ok && (specExact o a.2 || litWild o a.2)) = true
     · left; simp [hlit]
     · right
@@ -266,22 +270,24 @@ theorem known_needs_stardot (origin : Bytes) (o : PURL) (allow : List (Bytes × 
     · cases h
     · split at h
       · cases h
-      · rename_i hlit
-        split at h
-        · rename_i hw
-          rw [List.any_eq_true] at hw
-          obtain ⟨a, ha, hm⟩ := hw
-          simp only [Bool.and_eq_true] at hm
-          refine ⟨a, ha, ?_, hm.2⟩
-          cases hsd : hasStarDot (withDefaultPort a.2) with
-          | true => rfl
-          | false =>
-            exfalso; apply hlit
-            rw [List.any_eq_true]
-            refine ⟨a, ha, ?_⟩
-            rw [← wild_eq_literal o a.2 hsd]
-            simp [hm.1, hm.2]
+      · split at h
         · cases h
+        · rename_i hlit
+          split at h
+          · rename_i hw
+            rw [List.any_eq_true] at hw
+            obtain ⟨a, ha, hm⟩ := hw
+            simp only [Bool.and_eq_true] at hm
+            refine ⟨a, ha, ?_, hm.2⟩
+            cases hsd : hasStarDot (withDefaultPort a.2) with
+            | true => rfl
+            | false =>
+              exfalso; apply hlit
+              rw [List.any_eq_true]
+              refine ⟨a, ha, ?_⟩
+              rw [← wild_eq_literal o a.2 hsd]
+              simp [hm.1, hm.2]
+          · cases h
 
 /-- The property at full strength ("every other character matches literally"), as a statement about
 the wildcard branch. -/
